@@ -116,11 +116,16 @@ pub struct OdsTable {
     /// whitespace-only text written in front of every child element of the table, in front of
     /// `</table:table>` and, inside every cell that has children, around its text:p elements
     pub pretty: String,
+    /// the first n row elements are wrapped in <table:table-header-rows> (print titles): they are rows
+    /// of the table like any other.  Default: the first row of every table with an odd number (>= 3) of
+    /// row elements.
+    pub header_rows: usize,
 }
 
 impl OdsTable {
     pub fn new(name: &str, rows: Vec<OdsRow>) -> OdsTable {
-        OdsTable { name: name.to_string(), rows, display: None, column_decl: Some(16384), pretty: String::new() }
+        let header_rows = if rows.len() >= 3 && rows.len() % 2 == 1 { 1 } else { 0 };
+        OdsTable { name: name.to_string(), rows, display: None, column_decl: Some(16384), pretty: String::new(), header_rows }
     }
 }
 
@@ -343,9 +348,17 @@ impl OdsDoc {
                 o.push_str(&t.pretty);
                 o.push_str(&format!("<table:table-column table:number-columns-repeated=\"{}\"/>", n));
             }
-            for r in &t.rows {
+            for (ri, r) in t.rows.iter().enumerate() {
+                if t.header_rows > 0 && ri == 0 {
+                    o.push_str(&t.pretty);
+                    o.push_str("<table:table-header-rows>");
+                }
                 o.push_str(&t.pretty);
                 r.write_xml_pretty(&t.pretty, &mut o);
+                if t.header_rows > 0 && ri + 1 == t.header_rows.min(t.rows.len()) {
+                    o.push_str(&t.pretty);
+                    o.push_str("</table:table-header-rows>");
+                }
             }
             o.push_str(&t.pretty);
             o.push_str("</table:table>");
